@@ -1142,6 +1142,52 @@ func rulePolarity(c *Ctx, which string) {
 		default:
 			c.R.Hold("R-TABLE/env", p.Pos(f.Node()), f.Name, construct, "from the true edge of each prefix test the append is unreachable within the iteration", true)
 		}
+		// the dual: an entry reaches the plugin only after it was found not to be
+		// a reserved name - every path from the entry to an append crosses, for
+		// each reserved name, the edge on which the test for that name failed (a
+		// second way round the tests, e.g. a user-supplied filter consulted
+		// instead of them, lets the host's value through)
+		for _, want := range []string{"PLUGIN_CLIENT_CERT", "PLUGIN_MULTIPLEX_GRPC"} {
+			want := want
+			notWant := func(e *Edge) bool {
+				at, ok := edgeAtom(info, e)
+				if !ok {
+					return false
+				}
+				switch at.Kind {
+				case "call":
+					call, isC := at.X.(*ast.CallExpr)
+					if !isC || at.True || p.CalleeName(f, call) != "strings.HasPrefix" || len(call.Args) != 2 {
+						return false
+					}
+					pre, isK := constString(info, call.Args[1])
+					return isK && pre == want+"="
+				case "cmp":
+					if at.Op != token.NEQ {
+						return false
+					}
+					for _, side := range []ast.Expr{at.X, at.Y} {
+						if sv, isK := constString(info, side); isK && sv == want {
+							return true
+						}
+					}
+				}
+				return false
+			}
+			seen := g.Reach([]*Node{g.Entry}, nil, notWant)
+			construct2 := "only entries tested not to be " + want + " are inherited"
+			var hit *Node
+			for _, an := range appendN {
+				if _, r := seen[an]; r {
+					hit = an
+				}
+			}
+			if hit != nil {
+				c.R.Violate("R-TABLE/env", p.Pos(hit.Ast), f.Name, construct2, "an inherited entry can be appended to the plugin's environment on a path on which it was never compared with "+want+" (another condition is consulted instead of the built-in exclusion): a host that carries the variable hands it to its plugins, which then negotiate a feature this client did not ask for", p.PathTo(seen, hit))
+			} else if len(appendN) > 0 {
+				c.R.Hold("R-TABLE/env", p.Pos(f.Node()), f.Name, construct2, "every path to an append crosses the failed test for this name", true)
+			}
+		}
 	case "envversions":
 		// protocolVersion: the offered list is parsed when the variable is non-empty
 		f := p.Fn("protocolVersion")
@@ -1947,7 +1993,9 @@ func ruleMuxWindow(c *Ctx) {
 		// waits on the broker's done channel. Closing the recorded listeners is
 		// not enough - a multiplexed listener is not one of them.
 		doneF := p.FieldObj(modPath, "GRPCBroker", "doneCh")
+		listenersF := p.FieldObj(modPath, "GRPCBroker", "listeners")
 		waitsDone := false
+		var pollPos, trackPos token.Pos
 		for _, lf := range p.Funcs {
 			root := lf
 			for root.Parent != nil {
@@ -1956,15 +2004,46 @@ func ruleMuxWindow(c *Ctx) {
 			if root != f {
 				continue
 			}
+			linfo := lf.Pkg.TypesInfo
 			ast.Inspect(lf.Body, func(x ast.Node) bool {
-				if u, ok := x.(*ast.UnaryExpr); ok && u.Op == token.ARROW && SelField(lf.Pkg.TypesInfo, u.X) == doneF {
-					waitsDone = true
+				if u, ok := x.(*ast.UnaryExpr); ok && u.Op == token.ARROW && SelField(linfo, u.X) == doneF {
+					// a poll (select with a default clause) is not a wait
+					polled := false
+					for cur := p.Parent(u); cur != nil; cur = p.Parent(cur) {
+						if sel, isSel := cur.(*ast.SelectStmt); isSel {
+							for _, cl := range sel.Body.List {
+								if cl.(*ast.CommClause).Comm == nil {
+									polled = true
+								}
+							}
+							break
+						}
+						if _, isLit := cur.(*ast.FuncLit); isLit {
+							break
+						}
+					}
+					if !polled {
+						waitsDone = true
+					} else if pollPos == token.NoPos || u.Pos() > pollPos {
+						pollPos = u.Pos()
+					}
+				}
+				if as, ok := x.(*ast.AssignStmt); ok {
+					for _, l := range as.Lhs {
+						if ix, isIx := ast.Unparen(l).(*ast.IndexExpr); isIx && SelField(linfo, ix.X) == listenersF && listenersF != nil {
+							if trackPos == token.NoPos || as.Pos() < trackPos {
+								trackPos = as.Pos()
+							}
+						}
+					}
 				}
 				return true
 			})
 		}
 		if waitsDone {
 			c.R.Hold("R-MUX/window", p.Pos(f.Node()), f.Name, "a brokered server ends when the broker closes", "AcceptAndServe waits on GRPCBroker.doneCh", true)
+		} else if trackPos != token.NoPos && pollPos > trackPos {
+			c.R.Hold("R-MUX/window", p.Pos(f.Node()), f.Name, "a brokered server ends when the broker closes", "AcceptAndServe records the listener it serves on in GRPCBroker.listeners (Close closes those, R-RES/brokerls) and then polls GRPCBroker.doneCh for a Close that has already run", true)
 		} else {
 			c.R.Violate("R-MUX/window", p.Pos(f.Node()), f.Name, "a brokered server ends when the broker closes",
 				"nothing in AcceptAndServe waits on the broker's done channel: on a multiplexed connection (whose listeners the broker does not record) the serving goroutine and its knock listener outlive the broker", nil)
@@ -2158,6 +2237,27 @@ func ruleProtocolAccessor(c *Ctx) {
 		at, ok := edgeAtom(info, e)
 		return ok && at.Kind == "nil" && at.Op == token.EQL && identObj(info, at.X) == types.Object(errV)
 	}
+	// the other accepted form: the recorded protocol is returned only when
+	// Client.address - the commit store, written last by a successful Start -
+	// was read non-nil together with it (same assignment, hence the same
+	// critical section)
+	addrF := p.FieldObj(modPath, "Client", "address")
+	var pairStmt ast.Node
+	startedEdge := func(e *Edge) bool {
+		at, ok := edgeAtom(info, e)
+		if !ok || at.Kind != "nil" || at.Op != token.NEQ {
+			return false
+		}
+		v, ok := identObj(info, at.X).(*types.Var)
+		if !ok || v.IsField() {
+			return false
+		}
+		d := p.singleDef(f, v)
+		if d == nil || SelField(info, ast.Unparen(d)) != addrF {
+			return false
+		}
+		return pairStmt != nil && pairStmt.Pos() <= d.Pos() && d.End() <= pairStmt.End()
+	}
 	n, bad := 0, false
 	for _, m := range g.Nodes {
 		rs, ok := m.Ast.(*ast.ReturnStmt)
@@ -2165,6 +2265,7 @@ func ruleProtocolAccessor(c *Ctx) {
 			continue
 		}
 		reads := false
+		pairStmt = nil
 		ast.Inspect(rs.Results[0], func(x ast.Node) bool {
 			if se, ok := x.(*ast.SelectorExpr); ok && SelField(info, se) == protoF {
 				reads = true
@@ -2174,13 +2275,19 @@ func ruleProtocolAccessor(c *Ctx) {
 		if v, ok := identObj(info, rs.Results[0]).(*types.Var); ok && !v.IsField() {
 			if d := p.singleDef(f, v); d != nil && SelField(info, ast.Unparen(d)) == protoF {
 				reads = true
+				ast.Inspect(f.Body, func(x ast.Node) bool {
+					if as, ok := x.(*ast.AssignStmt); ok && as.Pos() <= d.Pos() && d.End() <= as.End() {
+						pairStmt = as
+					}
+					return true
+				})
 			}
 		}
 		if !reads {
 			continue
 		}
 		n++
-		if !g.OnlyViaEdge(m, okEdge) {
+		if !g.OnlyViaEdge(m, okEdge) && !g.OnlyViaEdge(m, startedEdge) {
 			bad = true
 			c.R.Violate("R-GATE/accessor", p.Pos(rs), f.Name, "protocol reported after a successful Start",
 				"Protocol() can return the recorded Client.protocol without a Start() of this call having succeeded: Start records the protocol of a handshake line before it has accepted the line, so a refused line's protocol is reported as if the plugin had started", nil)
@@ -2189,7 +2296,7 @@ func ruleProtocolAccessor(c *Ctx) {
 	if n == 0 {
 		c.R.Undecided("R-GATE/accessor", f.Name, "protocol reported after a successful Start", "no return of Client.protocol found")
 	} else if !bad {
-		c.R.Hold("R-GATE/accessor", p.Pos(f.Node()), f.Name, "protocol reported after a successful Start", "every return of Client.protocol lies on the err == nil edge of the Start() call", true)
+		c.R.Hold("R-GATE/accessor", p.Pos(f.Node()), f.Name, "protocol reported after a successful Start", "every return of Client.protocol lies on the err == nil edge of the Start() call (or behind a non-nil Client.address read in the same assignment)", true)
 	}
 }
 
@@ -2221,7 +2328,7 @@ func rulePidPoll(c *Ctx) {
 		}
 		n++
 		k := durationConst(info, d)
-		if k <= 0 || k > 5*int64(1e9) {
+		if (k <= 0 || k > 5*int64(1e9)) && !p.cappedDuration(f, d) {
 			bad = true
 			c.R.Violate("R-BOUND/poll", p.Pos(call), f.Name, "poll interval "+exprStr(d),
 				"the interval at which a reattached plugin's pid is polled is not a positive constant of at most 5 s: the exit is noticed (and Kill returns) only at the next poll, however long the interval has grown", nil)
@@ -2230,8 +2337,75 @@ func rulePidPoll(c *Ctx) {
 	if n == 0 {
 		c.R.Undecided("R-BOUND/poll", f.Name, "poll interval", "no ticker, timer or sleep found in pidWait")
 	} else if !bad {
-		c.R.Hold("R-BOUND/poll", p.Pos(f.Node()), f.Name, "poll interval", fmt.Sprintf("%d timer/ticker durations, all positive constants of at most 5 s", n), true)
+		c.R.Hold("R-BOUND/poll", p.Pos(f.Node()), f.Name, "poll interval", fmt.Sprintf("%d timer/ticker durations, all positive constants of at most 5 s (or a local whose every value is such a constant or min(..., such a constant))", n), true)
 	}
+}
+
+// cappedDuration: d is a local every definition of which is a positive
+// constant of at most 5 s or the builtin min(...) with such a constant among its
+// arguments (a capped back-off).
+func (p *Prog) cappedDuration(f *Func, d ast.Expr) bool {
+	info := f.Pkg.TypesInfo
+	v, ok := identObj(info, ast.Unparen(d)).(*types.Var)
+	if !ok || v.IsField() {
+		return false
+	}
+	small := func(e ast.Expr) bool {
+		k := durationConst(info, e)
+		return k > 0 && k <= 5*int64(1e9)
+	}
+	n, good := 0, true
+	ast.Inspect(f.Body, func(x ast.Node) bool {
+		switch s := x.(type) {
+		case *ast.AssignStmt:
+			for i, l := range s.Lhs {
+				if identObj(info, l) != types.Object(v) {
+					continue
+				}
+				n++
+				if len(s.Lhs) != len(s.Rhs) || (s.Tok != token.ASSIGN && s.Tok != token.DEFINE) {
+					good = false
+					continue
+				}
+				r := ast.Unparen(s.Rhs[i])
+				if small(r) {
+					continue
+				}
+				call, isCall := r.(*ast.CallExpr)
+				if id, isID := callFunIdent(call); !isCall || !isID || id.Name != "min" || info.Uses[id] != types.Universe.Lookup("min") {
+					good = false
+					continue
+				}
+				capped := false
+				for _, a := range call.Args {
+					if small(a) {
+						capped = true
+					}
+				}
+				if !capped {
+					good = false
+				}
+			}
+		case *ast.IncDecStmt:
+			if identObj(info, s.X) == types.Object(v) {
+				good = false
+			}
+		case *ast.UnaryExpr:
+			if s.Op == token.AND && identObj(info, s.X) == types.Object(v) {
+				good = false
+			}
+		}
+		return true
+	})
+	return n > 0 && good
+}
+
+func callFunIdent(call *ast.CallExpr) (*ast.Ident, bool) {
+	if call == nil {
+		return nil, false
+	}
+	id, ok := ast.Unparen(call.Fun).(*ast.Ident)
+	return id, ok
 }
 
 // ---------- R-BOUND/keepalive: the yamux sessions keep their default keep-alive ----------
@@ -2387,9 +2561,31 @@ func ruleFreshMuxListener(c *Ctx) {
 					return true
 				})
 			}
+			// a listener from the table is as good as a new one when its done
+			// channel was compared equal to the one this call was given
+			if rv, isVar := identObj(info, ast.Unparen(rs.Results[0])).(*types.Var); isVar && !fresh && doneP != nil && !rv.IsField() {
+				g := p.Graph(f)
+				if rn := g.NodeOf(rs); rn != nil && g.OnlyViaEdge(rn, func(e *Edge) bool {
+					at, ok := edgeAtom(info, e)
+					if !ok || at.Kind != "cmp" || at.Op != token.EQL {
+						return false
+					}
+					for _, pr := range [][2]ast.Expr{{at.X, at.Y}, {at.Y, at.X}} {
+						se, isSel := ast.Unparen(pr[0]).(*ast.SelectorExpr)
+						if isSel && identObj(info, se.X) == types.Object(rv) && identObj(info, pr[1]) == doneP {
+							if _, isChan := info.TypeOf(se).Underlying().(*types.Chan); isChan {
+								return true
+							}
+						}
+					}
+					return false
+				}) {
+					fresh, usesDone = true, true
+				}
+			}
 			construct := "listener built for this Accept"
 			if fresh && (usesDone || doneP == nil) {
-				c.R.Hold("R-FRESH/listener", p.Pos(rs), f.Name, construct, "constructed in this call with the caller's done channel", true)
+				c.R.Hold("R-FRESH/listener", p.Pos(rs), f.Name, construct, "constructed in this call with the caller's done channel (or taken from the table only where its done channel equals the caller's)", true)
 			} else {
 				c.R.Violate("R-FRESH/listener", p.Pos(rs), f.Name, construct,
 					"the muxer can return a listener that was not built in this call with the done channel it was given (one found in its table): its done channel is that of an earlier Accept of the id, so once that one was closed the new listener reports EOF at once and the knock for it is never answered", nil)
@@ -2418,6 +2614,31 @@ func ruleStartHoldsLock(c *Ctx) {
 		return
 	}
 	g := p.Graph(f)
+	// the nodes that acquire Client.l, in either mode: an acquisition is
+	// ordered after the release by the goroutine that wrote the state, which is
+	// what the argument needs (the lock need not still be held at the return)
+	acquires := func(m *Node) bool {
+		if m.Ast == nil {
+			return false
+		}
+		if _, isDefer := m.Ast.(*ast.DeferStmt); isDefer {
+			return false
+		}
+		for _, call := range callsIn(m.Ast) {
+			v, op := p.lockOp(f, call)
+			if v == nil || op != "lock" {
+				continue
+			}
+			if base := p.rshadowOf[v]; base != nil {
+				v = base
+			}
+			if p.lockName(v) == "Client.l" {
+				return true
+			}
+		}
+		return false
+	}
+	seen := g.Reach([]*Node{g.Entry}, acquires, nil)
 	n, bad := 0, false
 	for _, m := range g.Nodes {
 		rs, ok := m.Ast.(*ast.ReturnStmt)
@@ -2425,23 +2646,16 @@ func ruleStartHoldsLock(c *Ctx) {
 			continue
 		}
 		n++
-		held := p.MustHeldAt(f, m)
-		has := false
-		for v := range held {
-			if p.lockName(v) == "Client.l" {
-				has = true
-			}
-		}
-		if !has {
+		if _, lockFree := seen[m]; lockFree {
 			bad = true
 			c.R.Violate("R-GUARD/startlock", p.Pos(rs), f.Name, "return with the client lock held",
-				"Start can return without having taken Client.l: callers that go on to read the client's state on the strength of their own Start() call (Protocol, NegotiatedVersion, the dialers) are no longer ordered after the goroutine that is still writing it", nil)
+				"Start can return without having taken Client.l: callers that go on to read the client's state on the strength of their own Start() call (Protocol, NegotiatedVersion, the dialers) are no longer ordered after the goroutine that is still writing it", p.PathTo(seen, m))
 		}
 	}
 	if n == 0 {
 		c.R.Undecided("R-GUARD/startlock", f.Name, "returns", "no return statement found")
 	} else if !bad {
-		c.R.Hold("R-GUARD/startlock", p.Pos(f.Node()), f.Name, "return with the client lock held", fmt.Sprintf("all %d returns are made with Client.l held", n), true)
+		c.R.Hold("R-GUARD/startlock", p.Pos(f.Node()), f.Name, "return with the client lock held", fmt.Sprintf("all %d returns lie behind an acquisition of Client.l (Lock or RLock) on every path", n), true)
 	}
 }
 
@@ -2491,7 +2705,7 @@ func ruleMapFieldNotNil(c *Ctx) {
 					continue
 				}
 				n++
-				if isNilIdent(info, as.Rhs[i]) {
+				if isNilIdent(info, as.Rhs[i]) && !p.mapStoresRemake(fv) {
 					bad = true
 					c.R.Violate("R-NIL/map", p.Pos(as), f.Name, "store nil to "+p.FieldName(fv),
 						"the map is set to nil although other functions store elements into it: a store that runs afterwards (an operation still in flight while this one cleans up) panics with \"assignment to entry in nil map\"", nil)
@@ -2503,6 +2717,102 @@ func ruleMapFieldNotNil(c *Ctx) {
 	if !bad {
 		c.R.Hold("R-NIL/map", "-", "", "map fields that are stored into are never set to nil", fmt.Sprintf("%d map fields with element stores, %d whole-field assignments, none of nil", len(stored), n), true)
 	}
+}
+
+// mapStoresRemake: every element store into map field fv, anywhere in the
+// module, is made with a mutex held under which the field was tested against
+// nil and re-made on the nil edge: from the function's entry the store is
+// reachable only through `fv != nil` or through an assignment of make(...) to
+// the field, and the lock held at the store is not released between that point
+// and the store. A nil field is then just "empty".
+func (p *Prog) mapStoresRemake(fv *types.Var) bool {
+	n := 0
+	for _, f := range p.Funcs {
+		info := f.Pkg.TypesInfo
+		var stores []ast.Node
+		walkNoLit(f.Body, func(x ast.Node) bool {
+			if as, ok := x.(*ast.AssignStmt); ok {
+				for _, l := range as.Lhs {
+					if ix, isIx := ast.Unparen(l).(*ast.IndexExpr); isIx && SelField(info, ix.X) == fv {
+						stores = append(stores, as)
+					}
+				}
+			}
+			return true
+		})
+		if len(stores) == 0 {
+			continue
+		}
+		g := p.Graph(f)
+		isMake := func(m *Node) bool {
+			as, ok := m.Ast.(*ast.AssignStmt)
+			if !ok || len(as.Lhs) != len(as.Rhs) {
+				return false
+			}
+			for i, l := range as.Lhs {
+				if SelField(info, l) != fv {
+					continue
+				}
+				if call, isCall := ast.Unparen(as.Rhs[i]).(*ast.CallExpr); isCall {
+					if id, isID := callFunIdent(call); isID && id.Name == "make" {
+						return true
+					}
+				}
+				if _, isLit := ast.Unparen(as.Rhs[i]).(*ast.CompositeLit); isLit {
+					return true
+				}
+			}
+			return false
+		}
+		nonNil := func(e *Edge) bool {
+			at, ok := edgeAtom(info, e)
+			return ok && at.Kind == "nil" && at.Op == token.NEQ && SelField(info, at.X) == fv
+		}
+		unguarded := g.Reach([]*Node{g.Entry}, isMake, nonNil)
+		for _, st := range stores {
+			sn := g.NodeOf(st)
+			if sn == nil {
+				return false
+			}
+			n++
+			if _, bad := unguarded[sn]; bad {
+				return false
+			}
+			held := p.MustHeldAt(f, sn)
+			if len(held) == 0 {
+				return false
+			}
+			// no release of a held lock between the test/make and the store
+			var froms []*Node
+			for _, m := range g.Nodes {
+				if m.Ast != nil && isMake(m) {
+					froms = append(froms, m)
+				}
+				for _, e := range m.Succs {
+					if nonNil(e) {
+						froms = append(froms, e.To)
+					}
+				}
+			}
+			between := g.Reach(froms, func(x *Node) bool { return x == sn }, nil)
+			for m := range between {
+				if m.Ast == nil || m == sn {
+					continue
+				}
+				if _, isDefer := m.Ast.(*ast.DeferStmt); isDefer {
+					continue
+				}
+				for _, call := range callsIn(m.Ast) {
+					if v, op := p.lockOp(f, call); v != nil && op == "unlock" && held[v] {
+						if _, reaches := g.Reach([]*Node{m}, nil, nil)[sn]; reaches {
+							return false
+						}
+					}
+				}
+			}
+		}
+	}
+	return n > 0
 }
 
 // ---------- R-CTOR/session: the client muxer is connected when it is handed out ----------
